@@ -201,12 +201,9 @@ def run(ctx):
     def loop_bounds_ok(b, fk):
         """The function's single split loop runs i over [1, len)."""
         is_word = word_param_pred(fk, b)
-        for (bb_, t_) in b.calls():
-            if callee_name(t_).endswith("IntoIterator>::into_iter") and "ops::Range<usize>" in t_["args"][0]["place"]["ty"]:
-                ra = strip_refs(b.expr_operand(t_["args"][0]))
-                if ra.k == "agg" and ra.a[0].endswith("ops::Range::Range"):
-                    lo, hi = c08.affine(ra.a[1][0], is_word), c08.affine(ra.a[1][1], is_word)
-                    return c08.norm(lo) == {1: 1} and c08.norm(hi) == {"LEN": 1}
+        for (ra, bb_) in c08.driven_ranges(b):
+            lo, hi = c08.affine(ra.a[1][0], is_word), c08.affine(ra.a[1][1], is_word)
+            return c08.norm(lo) == {1: 1} and c08.norm(hi) == {"LEN": 1}
         return False
 
     def nonneg(form):
@@ -249,6 +246,14 @@ def run(ctx):
         if not cc_:
             return None
         pk_ = cc_[0].key
+        for _ in range(4):
+            # a closure created inside another closure runs where the outermost creator's combinators run
+            if prog.fns.get(pk_, {}).get("kind") != "Closure":
+                break
+            up_ = closure_creation(prog, pk_)
+            if not up_:
+                return None
+            pk_ = up_[0].key
         if prog.fns.get(pk_, {}).get("kind") == "Closure":
             return None
         if pk_ not in _pbodies:
@@ -524,6 +529,10 @@ def discharge_assert(prog, ctx, fk, b, i, kind, reph_fns, sub13, loop_bounds_ok,
     for s in b.blocks[i]["stmts"]:
         if s["k"] == "assign" and s["rv"]["k"] == "binop" and s["rv"]["op"].endswith("WithOverflow"):
             st = s
+    kfn, _tbl, kdefault = common.key_char_table(prog)
+    if (fk == kfn or _only_called_from(prog, fk, kfn)) and kdefault[0] == "value":
+        return True, ("D-finite-domain: the key table function was evaluated on its complete domain (all 65 536 key codes) and no input "
+                      "reaches a failing edge; this site is only reachable through it")
     if fk in reph_fns:
         bad = [x for x in sub13.get("C13.R1", [])] + [x for x in sub13.get("*", [])]
         if not bad:
